@@ -330,6 +330,21 @@ pub fn sdes_spaces(tier: Tier, seed: u64) -> Vec<CfgSpace> {
         let items = if idx / 0x7FF == 2 { vec![Item::priv_(text.as_bytes(), text.as_bytes()), Item::new(1, text.as_bytes())] } else { vec![Item::new(1, text.as_bytes())] };
         Pkt::Sdes { chunks: vec![Chunk { ssrc: 0x0506_0708, items }], pad: 0 }
     }));
+    // many items in total: chunks x items per chunk whose product passes 7905 (= 31 x 255), 8192 and 16384 while
+    // neither factor is remarkable on its own; and totals in bytes beyond 65535 made of chunks x items x value length
+    v.push(CfgSpace::new("sdes-many-items-in-total", 10, move |idx| {
+        let (c, n, len) = [(31usize, 254usize, 0usize), (31, 256, 1), (31, 265, 0), (4, 2000, 2), (4, 2100, 0), (16, 520, 3), (31, 530, 0), (24, 12, 230), (16, 16, 254), (19, 60, 220)][idx as usize];
+        let chunks = (0..c).map(|k| Chunk { ssrc: 0x0100_0000 * (k as u32 + 1) + n as u32, items: (0..n).map(|i| sdes_item_kind(((i + k) % 4) as u64, len, (i * 31 + k) as u64).unwrap()).collect() }).collect();
+        Pkt::Sdes { chunks, pad: 0 }
+    }));
+    // every item type 1..=255 with texts an extension-aware reader might judge (a hyphen, a space, a two-byte
+    // character, nothing): RFC 3550 gives a reader no reason to look inside the value of any type
+    v.push(CfgSpace::new("sdes-every-type-with-odd-text", 255 * 4, move |idx| {
+        let ty = (idx % 255) as u8 + 1;
+        let text: &[u8] = [&b"left-1"[..], b"a b", "r\u{e9}".as_bytes(), b""][(idx / 255) as usize];
+        let item = if ty == 8 { Item::priv_(b"x", text) } else { Item::new(ty, text) };
+        Pkt::Sdes { chunks: vec![Chunk { ssrc: 0x0506_0708, items: vec![item, Item::new(1, b"c")] }], pad: 0 }
+    }));
     // chunks x items: 1..=31 chunks of 0..=80 items each (the totals - items over all chunks, bytes - range over
     // many values that no single count reaches alone)
     v.push(CfgSpace::new("sdes-chunks-x-items", 31 * 81, move |idx| {
@@ -1128,6 +1143,25 @@ pub fn fb_spaces(tier: Tier, seed: u64) -> Vec<CfgSpace> {
     v.extend(pli_spaces(tier, seed));
     v.extend(fb_large_spaces());
     v.extend(fb_dense_spaces(tier));
+    // totals that reach a multiple of 64 words only through the padding: for every multiple M of 64 words up to 2304
+    // and every legal padding p, a NACK of M - 3 - p/4 words (+0, +1): the length field's low byte carries because of
+    // the trailer, not because of any count
+    v.push(CfgSpace::new("nack-words-plus-padding-reach-multiples-of-64-words", 36 * 63 * 2, move |idx| {
+        let m = 64 * ((idx % 36) as u32 + 1);
+        let p = 4 * ((idx / 36) % 63) as u32 + 4;
+        let k = ((m + (idx / (36 * 63)) as u32).saturating_sub(3 + p / 4)).max(1);
+        let seqs: Vec<u16> = (0..k).map(|i| (i * 17) as u16).collect();
+        Pkt::Fb { kind: Kind::Transport, sender: 0x5E4D_3C2B, media: 0x1A2B_3C4D, fci: Fci::Nack(seqs), pad: p as u8 }
+    }));
+    // the largest FIR lists with every padding that still fits, exactly fills, or overflows the packet
+    v.push(CfgSpace::new("fir-at-the-size-limit-x-padding", 4 * 6, move |idx| {
+        let k = [32_750u32, 32_764, 32_765, 32_766][(idx % 4) as usize];
+        // a packet holds 262144 bytes at most: the padding is cut down to what still fits (oversize configurations are
+        // C16's business, see known_findings.txt)
+        let pad = ([0u32, 4, 8, 12, 132, 252][(idx / 4) as usize]).min(262_144 - 12 - 8 * k) as u8;
+        let e = (0..k).map(|i| ((i << 24) ^ i.wrapping_mul(0x0001_0003), (i % 251) as u8)).collect();
+        Pkt::Fb { kind: Kind::Payload, sender: 1, media: 2, fci: Fci::Fir(e), pad }
+    }));
     // SSRCs that coincide: sender = media, a FIR entry about the sender / the media source / 0 / all ones, two FIR
     // entries that differ in one byte only
     v.push(CfgSpace::new("fb-coinciding-ssrcs", 6 * 6 * 5, move |idx| {
